@@ -18,9 +18,9 @@ import (
 	"sync"
 
 	"github.com/tmpim/casket"
+	"github.com/tmpim/casket/casketfile"
 	_ "github.com/tmpim/casket/caskethttp"
 	"github.com/tmpim/casket/caskethttp/httpserver"
-	"github.com/tmpim/casket/casketfile"
 
 	"verifharness/hx"
 )
@@ -911,7 +911,9 @@ func c09Scenarios() []c09Scenario {
 			}},
 		{"gzip-around-proxy", "gzip", "proxy", [2]string{"gzip {\n\tmin_length 1\n}", "proxy /api @BACKEND@"},
 			c09Req{"GET", "/api/x", [][2]string{{"Accept-Encoding", "gzip"}}, ""},
-			func(rec *httptest.ResponseRecorder, _ string) string { return flag(rec.Header().Get("Content-Encoding") == "gzip") }},
+			func(rec *httptest.ResponseRecorder, _ string) string {
+				return flag(rec.Header().Get("Content-Encoding") == "gzip")
+			}},
 		// rewriters before access
 		{"ext-before-basicauth", "ext", "basicauth", [2]string{"ext .txt", "basicauth /secret/s.txt user pass"},
 			c09Req{"GET", "/secret/s", nil, ""}, status},
@@ -957,6 +959,34 @@ func c09Scenarios() []c09Scenario {
 	}
 }
 
+// c09RunScenario loads the scenario's two-directive site (written order "0": the outer directive's
+// line first, "1": the inner one first), sends the probe and returns the observation.
+func c09RunScenario(sc c09Scenario, order, logName string) (string, error) {
+	lines := []c09Line{c09Pool[0], {sc.outer, []string{sc.lines[0]}}, {sc.inner, []string{sc.lines[1]}}}
+	if order == "1" {
+		lines[1], lines[2] = lines[2], lines[1]
+	}
+	if sc.outer == "root" {
+		lines = lines[1:] // the scenario brings its own root line
+	}
+	from := "Casketfile"
+	if rel, ok := c09ScenarioCasketfile[sc.name]; ok {
+		from = filepath.Join(c09Root, rel)
+	}
+	os.Remove(filepath.Join(c09Root, logName))
+	srv, stop, err := c09LoadFrom(from, lines, logName)
+	if err != nil {
+		return "", err
+	}
+	rec := c09Do(srv, sc.probe)
+	stop() // closes the log
+	if os.Getenv("VERIF_C09_DUMP") != "" {
+		b, err := os.ReadFile(filepath.Join(c09Root, logName))
+		fmt.Fprintf(os.Stderr, "code=%d hdr=%v body=%q log=%q err=%v\n", rec.Code, rec.Header(), rec.Body.String(), b, err)
+	}
+	return sc.observe(rec, filepath.Join(c09Root, logName)), nil
+}
+
 func c09PairsEval(f []string) (string, []string) {
 	if len(f) != 2 {
 		return "bad-case", nil
@@ -968,30 +998,11 @@ func c09PairsEval(f []string) (string, []string) {
 		if sc.name != f[0] {
 			continue
 		}
-		lines := []c09Line{c09Pool[0], {sc.outer, []string{sc.lines[0]}}, {sc.inner, []string{sc.lines[1]}}}
-		if f[1] == "1" {
-			lines[1], lines[2] = lines[2], lines[1]
-		}
-		if sc.outer == "root" {
-			lines = lines[1:] // the scenario brings its own root line
-		}
-		from := "Casketfile"
-		if rel, ok := c09ScenarioCasketfile[sc.name]; ok {
-			from = filepath.Join(c09Root, rel)
-		}
-		logName := "pairs-" + sc.name + "-" + f[1] + ".log"
-		os.Remove(filepath.Join(c09Root, logName))
-		srv, stop, err := c09LoadFrom(from, lines, logName)
+		obs, err := c09RunScenario(sc, f[1], "pairs-"+sc.name+"-"+f[1]+".log")
 		if err != nil {
 			return "start-error:" + err.Error(), nil
 		}
-		rec := c09Do(srv, sc.probe)
-		stop() // closes the log
-		if os.Getenv("VERIF_C09_DUMP") != "" {
-			b, err := os.ReadFile(filepath.Join(c09Root, logName))
-			fmt.Fprintf(os.Stderr, "code=%d hdr=%v body=%q log=%q err=%v\n", rec.Code, rec.Header(), rec.Body.String(), b, err)
-		}
-		return sc.observe(rec, filepath.Join(c09Root, logName)), []string{sc.name, "written-order-" + f[1]}
+		return obs, []string{sc.name, "written-order-" + f[1]}
 	}
 	return "bad-case:unknown scenario", nil
 }
@@ -1154,11 +1165,177 @@ func c09CallbacksGen(g *hx.Gen) {
 	}
 }
 
+// ---------------------------------------------------------------------------------------------
+// c09.history: the documented order after a HISTORY of loads in one process.  Earlier loads are
+// Casketfiles rejected for a misspelt directive (a failed start / reload, or -validate of a file
+// with a typo); then a two-directive site of c09.pairs is started and probed.
+//   0 typos     ','-separated misspelt directives, one rejected load each
+//   1 scenario  2 written order (as c09.pairs)
+//   3 how       start | validate | mixed: the rejected loads go through casket.Start, through
+//               casket.ValidateAndExecuteDirectives(justValidate), or alternate
+//   out = r|a per earlier load (rejected / accepted) '#' the probe's observation
+//         '#' casket.ValidDirectives("http") afterwards
+// ---------------------------------------------------------------------------------------------
+
+func c09RejectedLoad(word string, validate bool) string {
+	cf := "http://127.0.0.1:0 {\n\troot " + c09Root + "\n\t" + word + " x\n}\n"
+	in := casket.CasketfileInput{Filepath: "Casketfile", Contents: []byte(cf), ServerTypeName: "http"}
+	if validate {
+		if err := casket.ValidateAndExecuteDirectives(in, nil, true); err != nil {
+			return "r"
+		}
+		return "a"
+	}
+	inst, err := casket.Start(in)
+	if err != nil {
+		return "r"
+	}
+	inst.ShutdownCallbacks()
+	inst.Stop()
+	return "a"
+}
+
+func c09HistoryEval(f []string) (string, []string) {
+	if len(f) != 4 {
+		return "bad-case", nil
+	}
+	if err := c09Setup(); err != nil {
+		return "setup-error:" + err.Error(), nil
+	}
+	var typos []string
+	if f[0] != "" {
+		typos = strings.Split(f[0], ",")
+	}
+	for _, sc := range c09Scenarios() {
+		if sc.name != f[1] {
+			continue
+		}
+		flags := ""
+		for i, w := range typos {
+			flags += c09RejectedLoad(w, f[3] == "validate" || (f[3] == "mixed" && i%2 == 1))
+		}
+		obs, err := c09RunScenario(sc, f[2], "history-"+sc.name+"-"+f[2]+".log")
+		if err != nil {
+			obs = "start-error"
+		}
+		tags := []string{fmt.Sprintf("rejected-loads=%d", strings.Count(flags, "r")), "how-" + f[3], "written-order-" + f[2]}
+		if !strings.Contains(flags, "r") {
+			tags = append(tags, "trivial-no-rejected-load")
+		}
+		// does a typo resemble the scenario's inner directive more than its outer one?
+		pre := func(a, b string) int {
+			n := 0
+			for n < len(a) && n < len(b) && a[n] == b[n] {
+				n++
+			}
+			return n
+		}
+		for _, w := range typos {
+			if pre(w, sc.inner) > pre(w, sc.outer) {
+				tags = append(tags, "typo-resembles-inner")
+				break
+			}
+		}
+		return flags + "#" + obs + "#" + strings.Join(casket.ValidDirectives("http"), ","), tags
+	}
+	return "bad-case:unknown scenario", nil
+}
+
+// c09Typos: misspellings of a directive name that are not themselves directives
+func c09Typos(d string, valid map[string]bool) []string {
+	var out []string
+	add := func(w string) {
+		if w != "" && !valid[w] && !strings.ContainsAny(w, ", \t#") {
+			for _, o := range out {
+				if o == w {
+					return
+				}
+			}
+			out = append(out, w)
+		}
+	}
+	n := len(d)
+	if n >= 2 {
+		add(d[:n-1])                                   // last letter dropped: rewrit, gzi
+		add(d[:n-2] + string(d[n-1]) + string(d[n-2])) // last two swapped: basicauht
+		add(string(d[0]) + string(d[2:]))              // second letter dropped
+		add(d[:1] + string(d[n-1]) + d[1:n-1])         // lgo
+	}
+	add(d + "s")
+	return out
+}
+
+func c09HistoryGen(g *hx.Gen) {
+	valid := map[string]bool{}
+	for _, d := range casket.ValidDirectives("http") {
+		valid[d] = true
+	}
+	scs := c09Scenarios()
+	hows := []string{"start", "validate", "mixed"}
+	// no earlier load at all (must agree with c09.pairs)
+	for _, sc := range scs[:3] {
+		g.Case("", sc.name, "0", "start")
+	}
+	// every scenario after ONE rejected load with a typo of its inner directive (first two
+	// misspellings), and of its outer directive; both written orders; start and validate
+	for _, sc := range scs {
+		for ti, w := range c09Typos(sc.inner, valid) {
+			if ti >= 2 && !g.Thorough() {
+				break
+			}
+			for _, o := range []string{"0", "1"} {
+				for _, how := range hows[:2] {
+					g.Case(w, sc.name, o, how)
+				}
+			}
+		}
+		if ws := c09Typos(sc.outer, valid); len(ws) > 0 {
+			g.Case(ws[0], sc.name, "1", "start")
+		}
+	}
+	// seeded random histories of 2..4 rejected loads with typos of any directive of the scenarios
+	var names []string
+	seen := map[string]bool{}
+	for _, sc := range scs {
+		for _, d := range []string{sc.outer, sc.inner} {
+			if !seen[d] {
+				seen[d] = true
+				names = append(names, d)
+			}
+		}
+	}
+	N := 120
+	if g.Thorough() {
+		N = 3000
+	}
+	for it := 0; it < N; it++ {
+		sc := scs[g.Rng.Intn(len(scs))]
+		n := 2 + g.Rng.Intn(3)
+		var ws []string
+		for i := 0; i < n; i++ {
+			d := hx.Pick(g.Rng, names)
+			if g.Rng.Chance(1, 2) {
+				d = hx.Pick(g.Rng, []string{sc.inner, sc.outer})
+			}
+			ts := c09Typos(d, valid)
+			if len(ts) == 0 {
+				continue
+			}
+			ws = append(ws, hx.Pick(g.Rng, ts))
+		}
+		g.Case(strings.Join(ws, ","), sc.name, hx.Pick(g.Rng, []string{"0", "1"}), hx.Pick(g.Rng, hows))
+	}
+}
+
 func init() {
 	hx.Register(&hx.Stream{ID: "C09", Name: "c09.callbacks", Gen: c09CallbacksGen, Eval: c09CallbacksEval, Serial: true})
 	hx.Register(&hx.Stream{ID: "C09", Name: "c09.pairs", Gen: c09PairsGen, Eval: c09PairsEval, Serial: true, Teardown: c09Teardown})
 	hx.Register(&hx.Stream{ID: "C09", Name: "c09.directives", Gen: func(g *hx.Gen) { g.Case("http") }, Eval: c09DirectivesEval})
 	hx.Register(&hx.Stream{ID: "C09", Name: "c09.group", Gen: c09GroupGen, Eval: c09GroupEval})
 	hx.Register(&hx.Stream{ID: "C09", Name: "c09.perm", Gen: c09PermGen, Eval: c09PermEval, Serial: true,
+		Teardown: c09Teardown})
+	// last: under a defect that lets a rejected load change process-wide state, the streams above
+	// stay unaffected and every case here carries its own history (replayable in a fresh process)
+	hx.Register(&hx.Stream{ID: "C09", Name: "c09.history", Gen: c09HistoryGen, Eval: c09HistoryEval, Serial: true,
 		Teardown: c09Teardown})
 }
